@@ -115,6 +115,13 @@ def run(ck, rng, tier):
         for nth in nths:
             lines.append("yscr 5 %s %s %d %d %d" % (vf.fmt_mat(X), vf.fmt_mat(Ycls), vtype, rounds, nth))
             meta.append(("yscr", 5, (vtype, rounds), nth))
+    # ... and the cross-validated k-means (it seeds its own stream): worker counts that do and do not divide the rows / the
+    # training folds, each result also recomputed into the vector that already holds it
+    Xk = [[(i % 3) * 4.0 + rng.gauss(0, 1), (i % 3) * -3.0 + rng.gauss(0, 1)] for i in range(24)]
+    for init_ in (2, 3):
+        for nth in (1, 2, 3, 5, 7):
+            lines.append("kmcv %s 4 %d 3 2 %d" % (vf.fmt_mat(Xk), init_, nth))
+            meta.append(("kmcv", init_, nth))
     rc, outs, err = vf.run_driver(exe, "\n".join(lines) + "\n", timeout=1200)
     if rc != 0 or len(outs) != len(meta):
         ck.broken("driver drv_c06", "rc=%s cases=%d/%d %s" % (rc, len(outs), len(meta), err[-800:]))
@@ -122,6 +129,7 @@ def run(ck, rng, tier):
     checks = vf.Checks()
     bootres = {}
     yscr = {}
+    kmcv = {}
     for i, (mt, o) in enumerate(zip(meta, outs)):
         if mt[0] == "rng":
             _, seed, n, low, high = mt
@@ -154,6 +162,12 @@ def run(ck, rng, tier):
                             "random_kfold_group_generator (seed %d) returned different groups when another worker drew concurrently" % mt[1][k],
                             {"seeds": mt[1], "nobj": mt[2], "groups": mt[3], "worker": k})
                     break
+        elif mt[0] == "kmcv":
+            _, init_, nth = mt
+            ck.case(mt)
+            if repr(o["ssdist"]) != repr(o["ssdist_again"]):
+                ck.fail("KMeansRandomGroupsCV", "run_to_run_nondeterminism", "a second run into the vector that holds the first result is not bit-identical (initializer %d, %d threads)" % (init_, nth), {"X": Xk, "initializer": init_, "threads": nth})
+            kmcv.setdefault(init_, {})[nth] = o["ssdist"]
         elif mt[0] == "yscr":
             _, algo, cfg, nth = mt
             ck.case(mt)
@@ -170,6 +184,10 @@ def run(ck, rng, tier):
             if any(p != preds[0] for p in preds):
                 ck.fail("BootstrapRandomGroupsCV", "run_to_run_nondeterminism", "repeated runs with %d threads differ (%s)" % (nth, algo[1]), {"algo": algo[0], "config": algo[1], "threads": nth})
             bootres.setdefault(algo, {})[nth] = preds[0]
+    for init_, byth in kmcv.items():
+        for nth, v in byth.items():
+            if not np.allclose(np.array(v), np.array(byth[1]), rtol=1e-9, atol=1e-12, equal_nan=True):
+                ck.fail("KMeansRandomGroupsCV", "thread_count_dependence", "cross-validated k-means with %d threads differs from the sequential run (initializer %d)" % (nth, init_), {"X": Xk, "initializer": init_, "threads": nth})
     for (algo, cfg), byth in yscr.items():
         base = np.array(byth.get(1))
         for nth, p in byth.items():
